@@ -1,5 +1,17 @@
 import Knut.Spec.Lifecycle
 import Knut.Proofs.Sim
+import Knut.Proofs.Builder
+/-!
+# The lifecycle verdict does not depend on the directive order within a day (C04/C05)
+
+`Spec.stepDay` folds over the opens, transactions, assertions and closes of a day, each in list order.
+Shown here: permuting each of the four lists leaves the outcome unchanged up to `LEquiv` (same set of
+open accounts, same multiset of logged postings); a rejecting run stays rejecting, though the directive
+it names may differ.  Method: every step respects `LEquiv`; two steps of the same kind commute up to
+`LEquiv`, failure included (`stepOpen_comm`, `stepTx_comm`, `stepAssert_comm`, `stepClose_comm`); the
+generic `foldlM_perm_sim` lifts that to permutations.  The order of the postings inside a transaction
+and of the balances inside an assertion is fixed.
+-/
 
 namespace List
 /-- pointwise relation of two lists (core has no `List.Forall₂`; same definition as Mathlib's) -/
@@ -112,3 +124,274 @@ theorem stepClose_resp (s s' : LState) (c : Close) (h : LEquiv s s') : PSim LEqu
   all_goals first | trivial | skip
   refine ⟨?_, h.2⟩
   intro a; simp only [List.mem_filter, h.1 a]
+
+/-! ### Opens -/
+theorem stepOpen_err {s : LState} {o : Open} (h : o.account ∈ s.opened) : stepOpen s o = .error (.opening o) := by
+  unfold stepOpen; rw [if_pos (List.contains_iff_mem.mpr h)]
+theorem stepOpen_ok {s : LState} {o : Open} (h : o.account ∉ s.opened) :
+    stepOpen s o = .ok { s with opened := o.account :: s.opened } := by
+  unfold stepOpen; rw [if_neg (fun c => h (List.contains_iff_mem.mp c))]
+
+theorem ok_bind {ε α β : Type} (a : α) (f : α → Except ε β) : (Except.ok a >>= f) = f a := rfl
+theorem error_bind {ε α β : Type} (e : ε) (f : α → Except ε β) : (Except.error e >>= f) = .error e := rfl
+
+theorem stepOpen_comm (s : LState) (x y : Open) :
+    PSim LEquiv (stepOpen s x >>= fun s1 => stepOpen s1 y) (stepOpen s y >>= fun s1 => stepOpen s1 x) := by
+  by_cases hx : x.account ∈ s.opened
+  · rw [stepOpen_err hx, error_bind]
+    by_cases hy : y.account ∈ s.opened
+    · rw [stepOpen_err hy, error_bind]; trivial
+    · rw [stepOpen_ok hy, ok_bind, stepOpen_err (List.mem_cons_of_mem _ hx)]; trivial
+  · rw [stepOpen_ok hx, ok_bind]
+    by_cases hy : y.account ∈ s.opened
+    · rw [stepOpen_err hy, error_bind, stepOpen_err (List.mem_cons_of_mem _ hy)]; trivial
+    · rw [stepOpen_ok hy, ok_bind]
+      by_cases hxy : x.account = y.account
+      · rw [stepOpen_err (by rw [hxy]; exact List.mem_cons_self), stepOpen_err (by rw [hxy]; exact List.mem_cons_self)]; trivial
+      · rw [stepOpen_ok (by intro h; rcases List.mem_cons.mp h with e | e; exact hxy e.symm; exact hy e),
+          stepOpen_ok (by intro h; rcases List.mem_cons.mp h with e | e; exact hxy e; exact hx e)]
+        refine ⟨?_, List.Perm.refl _⟩
+        intro a; simp only [List.mem_cons]
+        constructor <;> (rintro (h | h | h) <;> simp [h])
+
+/-! ### Transactions -/
+
+/-- all postings of a transaction, one step -/
+def stepTx (s : LState) (t : Transaction) : Except Directive LState :=
+  t.postings.foldlM (fun s p => stepPosting s t p) s
+
+theorem stepPosting_err {s : LState} (t : Transaction) {p : Posting} (h : s.opened.contains p.account = false) :
+    stepPosting s t p = .error (.tx t) := by
+  unfold stepPosting; rw [h]; rfl
+theorem stepPosting_ok {s : LState} (t : Transaction) {p : Posting} (h : s.opened.contains p.account = true) :
+    stepPosting s t p = .ok (if p.account.isAL then { s with log := s.log ++ [p] } else s) := by
+  unfold stepPosting; rw [h]; rfl
+
+theorem foldl_posting_closed (t : Transaction) (ps : List Posting) : ∀ s : LState,
+    ps.foldlM (fun s p => stepPosting s t p) s =
+      if ps.all (fun p => s.opened.contains p.account) then
+        .ok { s with log := s.log ++ ps.filter (fun p => p.account.isAL) }
+      else .error (.tx t) := by
+  induction ps with
+  | nil => intro s; simp [pure, Except.pure]
+  | cons p rest ih =>
+    intro s
+    rw [List.foldlM_cons, List.all_cons]
+    cases hc : s.opened.contains p.account
+    · rw [stepPosting_err t hc, error_bind]; rfl
+    · rw [stepPosting_ok t hc, ok_bind, ih, Bool.true_and, List.filter_cons]
+      cases hal : p.account.isAL
+      · rfl
+      · simp only [if_true, List.append_assoc, List.singleton_append]
+
+theorem stepTx_closed (s : LState) (t : Transaction) :
+    stepTx s t = if t.postings.all (fun p => s.opened.contains p.account) then
+        .ok { s with log := s.log ++ t.postings.filter (fun p => p.account.isAL) }
+      else .error (.tx t) := foldl_posting_closed t t.postings s
+
+theorem stepTx_resp (s s' : LState) (t : Transaction) (h : LEquiv s s') : PSim LEquiv (stepTx s t) (stepTx s' t) :=
+  foldlM_sim LEquiv _ _ _ t.postings (fun s s' p _ h => stepPosting_resp t s s' p h) s s' h
+
+theorem stepTx_comm (s : LState) (x y : Transaction) :
+    PSim LEquiv (stepTx s x >>= fun s1 => stepTx s1 y) (stepTx s y >>= fun s1 => stepTx s1 x) := by
+  rw [stepTx_closed s x, stepTx_closed s y]
+  cases hx : x.postings.all (fun p => s.opened.contains p.account) <;>
+    cases hy : y.postings.all (fun p => s.opened.contains p.account)
+  · trivial
+  · simp only [Bool.false_eq_true, if_false, if_true, error_bind, ok_bind]
+    rw [stepTx_closed]; simp only [hx, Bool.false_eq_true, if_false]; trivial
+  · simp only [Bool.false_eq_true, if_false, if_true, error_bind, ok_bind]
+    rw [stepTx_closed]; simp only [hy, Bool.false_eq_true, if_false]; trivial
+  · simp only [if_true, ok_bind]
+    rw [stepTx_closed, stepTx_closed]; simp only [hx, hy, if_true]
+    refine ⟨fun _ => Iff.rfl, ?_⟩
+    simp only [List.append_assoc]
+    exact (List.Perm.refl _).append List.perm_append_comm
+
+/-! ### Assertions: every balance is a test, the state does not change -/
+
+/-- the test a single balance performs -/
+def balTest (strict : Bool) (s : LState) (b : Balance) : Bool :=
+  s.opened.contains b.account &&
+    (if b.account.isAL then decide (qtyOf s.log b.account b.commodity = b.quantity)
+     else !(strict && decide (b.quantity ≠ 0)))
+
+theorem stepBalance_closed (strict : Bool) (s : LState) (a : Assertion) (b : Balance) :
+    stepBalance strict s a b = if balTest strict s b then .ok s else .error (.assertion a) := by
+  unfold stepBalance balTest
+  cases s.opened.contains b.account
+  · rfl
+  · cases b.account.isAL
+    · cases strict
+      · rfl
+      · by_cases hq : b.quantity = 0 <;> simp [hq]
+    · by_cases hq : qtyOf s.log b.account b.commodity = b.quantity <;> simp [hq]
+
+def stepAssert (strict : Bool) (s : LState) (a : Assertion) : Except Directive LState :=
+  a.balances.foldlM (fun s b => stepBalance strict s a b) s
+
+theorem foldl_balance_closed (strict : Bool) (s : LState) (a : Assertion) (bs : List Balance) :
+    bs.foldlM (fun s b => stepBalance strict s a b) s =
+      if bs.all (balTest strict s) then .ok s else .error (.assertion a) := by
+  induction bs with
+  | nil => rfl
+  | cons b rest ih =>
+    rw [List.foldlM_cons, List.all_cons, stepBalance_closed]
+    cases balTest strict s b
+    · rfl
+    · rw [if_pos rfl, ok_bind, ih, Bool.true_and]
+
+theorem stepAssert_closed (strict : Bool) (s : LState) (a : Assertion) :
+    stepAssert strict s a = if a.balances.all (balTest strict s) then .ok s else .error (.assertion a) :=
+  foldl_balance_closed strict s a a.balances
+
+theorem stepAssert_resp (strict : Bool) (s s' : LState) (a : Assertion) (h : LEquiv s s') :
+    PSim LEquiv (stepAssert strict s a) (stepAssert strict s' a) :=
+  foldlM_sim LEquiv _ _ _ a.balances (fun s s' b _ h => stepBalance_resp strict a s s' b h) s s' h
+
+theorem stepAssert_comm (strict : Bool) (s : LState) (x y : Assertion) :
+    PSim LEquiv (stepAssert strict s x >>= fun s1 => stepAssert strict s1 y)
+      (stepAssert strict s y >>= fun s1 => stepAssert strict s1 x) := by
+  rw [stepAssert_closed strict s x, stepAssert_closed strict s y]
+  cases hx : x.balances.all (balTest strict s) <;> cases hy : y.balances.all (balTest strict s)
+  · trivial
+  · simp only [Bool.false_eq_true, if_false, if_true, error_bind, ok_bind]
+    rw [stepAssert_closed]; simp only [hx, Bool.false_eq_true, if_false]; trivial
+  · simp only [Bool.false_eq_true, if_false, if_true, error_bind, ok_bind]
+    rw [stepAssert_closed]; simp only [hy, Bool.false_eq_true, if_false]; trivial
+  · simp only [if_true, ok_bind]
+    rw [stepAssert_closed, stepAssert_closed]; simp only [hx, hy, if_true]
+    exact LEquiv.refl s
+
+/-! ### Closes -/
+
+theorem stepClose_ok {s : LState} {c : Close} (hz : allZero s.log c.account = true) (ho : c.account ∈ s.opened) :
+    stepClose s c = .ok { s with opened := s.opened.filter (· ≠ c.account) } := by
+  unfold stepClose; rw [hz, List.contains_iff_mem.mpr ho]; rfl
+
+theorem stepClose_err {s : LState} {c : Close} (h : ¬ (allZero s.log c.account = true ∧ c.account ∈ s.opened)) :
+    stepClose s c = .error (.closing c) := by
+  unfold stepClose
+  cases hz : allZero s.log c.account
+  · rfl
+  · cases hc : s.opened.contains c.account
+    · rfl
+    · exact absurd ⟨hz, List.contains_iff_mem.mp hc⟩ h
+
+theorem stepClose_comm (s : LState) (x y : Close) :
+    PSim LEquiv (stepClose s x >>= fun s1 => stepClose s1 y) (stepClose s y >>= fun s1 => stepClose s1 x) := by
+  by_cases hx : allZero s.log x.account = true ∧ x.account ∈ s.opened
+  · rw [stepClose_ok hx.1 hx.2, ok_bind]
+    by_cases hy : allZero s.log y.account = true ∧ y.account ∈ s.opened
+    · rw [stepClose_ok hy.1 hy.2, ok_bind]
+      by_cases hxy : x.account = y.account
+      · rw [stepClose_err (by simp [hxy]), stepClose_err (by simp [hxy])]; trivial
+      · have hyx : y.account ≠ x.account := fun e => hxy e.symm
+        rw [stepClose_ok (s := { s with opened := s.opened.filter (· ≠ x.account) }) hy.1
+              (List.mem_filter.mpr ⟨hy.2, by simpa using hyx⟩),
+          stepClose_ok (s := { s with opened := s.opened.filter (· ≠ y.account) }) hx.1
+              (List.mem_filter.mpr ⟨hx.2, by simpa using hxy⟩)]
+        refine ⟨?_, List.Perm.refl _⟩
+        intro a; simp only [List.mem_filter]
+        constructor <;> (rintro ⟨⟨h1, h2⟩, h3⟩; exact ⟨⟨h1, h3⟩, h2⟩)
+    · rw [stepClose_err hy, error_bind, stepClose_err (by
+        rintro ⟨h1, h2⟩; exact hy ⟨h1, (List.mem_filter.mp h2).1⟩)]
+      trivial
+  · rw [stepClose_err hx, error_bind]
+    by_cases hy : allZero s.log y.account = true ∧ y.account ∈ s.opened
+    · rw [stepClose_ok hy.1 hy.2, ok_bind, stepClose_err (by
+        rintro ⟨h1, h2⟩; exact hx ⟨h1, (List.mem_filter.mp h2).1⟩)]
+      trivial
+    · rw [stepClose_err hy, error_bind]; trivial
+
+/-! ### Days and journals -/
+
+/-- two days with the same date and, per kind the checker looks at, the same directives up to order
+(prices are irrelevant to the checker) -/
+def DayEquiv (d d' : Day) : Prop :=
+  d.date = d'.date ∧ d.openings.Perm d'.openings ∧ d.transactions.Perm d'.transactions ∧
+    d.assertions.Perm d'.assertions ∧ d.closings.Perm d'.closings
+
+theorem stepDay_eq (strict : Bool) (s : LState) (d : Day) :
+    stepDay strict s d =
+      (d.openings.foldlM stepOpen s >>= fun s => d.transactions.foldlM stepTx s >>= fun s =>
+        d.assertions.foldlM (stepAssert strict) s >>= fun s => d.closings.foldlM stepClose s) := rfl
+
+theorem opens_perm {l l' : List Open} (hp : l.Perm l') (s s' : LState) (h : LEquiv s s') :
+    PSim LEquiv (l.foldlM stepOpen s) (l'.foldlM stepOpen s') :=
+  foldlM_perm_sim LEquiv LEquiv.refl LEquiv.trans stepOpen stepOpen_resp stepOpen_comm hp s s' h
+
+theorem txs_perm {l l' : List Transaction} (hp : l.Perm l') (s s' : LState) (h : LEquiv s s') :
+    PSim LEquiv (l.foldlM stepTx s) (l'.foldlM stepTx s') :=
+  foldlM_perm_sim LEquiv LEquiv.refl LEquiv.trans stepTx stepTx_resp stepTx_comm hp s s' h
+
+theorem asserts_perm (strict : Bool) {l l' : List Assertion} (hp : l.Perm l') (s s' : LState) (h : LEquiv s s') :
+    PSim LEquiv (l.foldlM (stepAssert strict) s) (l'.foldlM (stepAssert strict) s') :=
+  foldlM_perm_sim LEquiv LEquiv.refl LEquiv.trans (stepAssert strict) (stepAssert_resp strict) (stepAssert_comm strict) hp s s' h
+
+theorem closes_perm {l l' : List Close} (hp : l.Perm l') (s s' : LState) (h : LEquiv s s') :
+    PSim LEquiv (l.foldlM stepClose s) (l'.foldlM stepClose s') :=
+  foldlM_perm_sim LEquiv LEquiv.refl LEquiv.trans stepClose stepClose_resp stepClose_comm hp s s' h
+
+/-- a day step gives equivalent outcomes on equivalent states and equivalent days -/
+theorem stepDay_perm (strict : Bool) (s s' : LState) (d d' : Day) (hd : DayEquiv d d') (h : LEquiv s s') :
+    PSim LEquiv (stepDay strict s d) (stepDay strict s' d') := by
+  rw [stepDay_eq, stepDay_eq]
+  obtain ⟨_, ho, ht, ha, hc⟩ := hd
+  refine bind_sim (opens_perm ho s s' h) (fun s s' h => ?_)
+  refine bind_sim (txs_perm ht s s' h) (fun s s' h => ?_)
+  refine bind_sim (asserts_perm strict ha s s' h) (fun s s' h => ?_)
+  exact closes_perm hc s s' h
+
+theorem foldl_days_perm (strict : Bool) {days days' : List Day} (h : List.Forall₂ DayEquiv days days') :
+    ∀ s s', LEquiv s s' → PSim LEquiv (days.foldlM (stepDay strict) s) (days'.foldlM (stepDay strict) s') := by
+  induction h with
+  | nil => intro s s' h; exact h
+  | cons hd _ ih =>
+    intro s s' h
+    simp only [List.foldlM_cons]
+    exact bind_sim (stepDay_perm strict s s' _ _ hd h) ih
+
+/-- the final states are equivalent, or both runs reject (possibly naming different directives) -/
+theorem verdict_perm_sim (strict : Bool) (days days' : List Day) (h : List.Forall₂ DayEquiv days days') :
+    PSim LEquiv (Spec.verdict strict days) (Spec.verdict strict days') :=
+  foldl_days_perm strict h {} {} (LEquiv.refl _)
+
+/-- **the verdict does not depend on the order of the directives within a day** -/
+theorem verdict_perm (strict : Bool) (days days' : List Day) (h : List.Forall₂ DayEquiv days days') :
+    (Spec.verdict strict days).isOk = (Spec.verdict strict days').isOk :=
+  psim_isOk (verdict_perm_sim strict days days' h)
+
+end Knut.Spec
+
+namespace Knut
+
+/-! ### From day contents by date to a pointwise correspondence of day lists -/
+
+theorem findDay_self (days : List Day) (hs : Sorted days) (d : Day) (hd : d ∈ days) : findDay days d.date = some d := by
+  induction days with
+  | nil => cases hd
+  | cons x rest ih =>
+    unfold Sorted at hs
+    rw [List.pairwise_cons] at hs
+    rcases List.mem_cons.mp hd with rfl | hd
+    · simp [findDay]
+    · have hne : ¬ x.date = d.date := by have := hs.1 d hd; omega
+      have : findDay (x :: rest) d.date = findDay rest d.date := by simp [findDay, hne]
+      rw [this]; exact ih hs.2 hd
+
+theorem contentOn_self {α : Type} (k : Kind α) (days : List Day) (hs : Sorted days) (d : Day) (hd : d ∈ days) :
+    contentOn k days d.date = k.proj d := by
+  unfold contentOn; rw [findDay_self days hs d hd]; rfl
+
+theorem forall₂_of_dates {R : Day → Day → Prop} : ∀ (l l' : List Day), l.map (·.date) = l'.map (·.date) →
+    (∀ d ∈ l, ∀ d' ∈ l', d.date = d'.date → R d d') → List.Forall₂ R l l'
+  | [], [], _, _ => .nil
+  | [], _ :: _, h, _ => by cases h
+  | _ :: _, [], h, _ => by cases h
+  | a :: l, b :: l', h, hr => by
+    simp only [List.map_cons, List.cons.injEq] at h
+    exact .cons (hr a List.mem_cons_self b List.mem_cons_self h.1)
+      (forall₂_of_dates l l' h.2 (fun d hd d' hd' => hr d (List.mem_cons_of_mem _ hd) d' (List.mem_cons_of_mem _ hd')))
+
+end Knut
